@@ -116,6 +116,7 @@ Definition gstep (g : ghost) (o : op) : option ghost :=
     if gusable g (idx w) then Some g else None
   | OFlush w => if Nat.eqb (idx w) O && gusable g O then Some g else None
   | OKey | OMouse _ | ONop => Some g
+  | OFrameRef _ | OFrameUnref _ => Some g          (* the library's own references: not the client's business *)
   end.
 
 Fixpoint gcheck (g : ghost) (l : list op) : option ghost :=
